@@ -257,6 +257,10 @@ pub fn point_case(case: &Case, kin: &Kin, x: &[f64], st: &Settings, extra: Value
     })
 }
 
+pub fn settings_json(st: &Settings) -> Value {
+    json!({"stability": st.stability.map(jf), "debug": st.debug, "metadata": st.metadata})
+}
+
 pub fn settings_from_json(v: &Value) -> Settings {
     Settings {
         stability: if v["stability"].is_null() { None } else { Some(unjf(&v["stability"])) },
